@@ -17,7 +17,7 @@ from unittest import mock
 from zope.interface import implementer, alsoProvides
 from twisted.internet import task, defer
 from twisted.internet.address import IPv4Address
-from twisted.internet.error import ConnectionRefusedError, ConnectionDone
+from twisted.internet.error import ConnectionRefusedError, ConnectionDone, TimeoutError as ConnectTimeoutError
 from twisted.internet.interfaces import ITransport, IConsumer
 from twisted.internet.task import Cooperator
 from twisted.python import failure
@@ -52,12 +52,18 @@ TRUSTED = [
     "Noise NNpsk0 (noiseprotocol is not installed): ToyNoise in the harness; a KCM can only come from the peer (C12)",
     "TrafficTimer/ping timer are not advanced (C16); its disconnect is exercised by calling Manager._signal_reconnect directly",
     "listener readiness is synchronous (as Twisted's TCP4ServerEndpoint.listen), one direct hint per listener, no relay, no Tor",
+    "network reachability is a per-run constant: the set of sides whose DIALLED connections get through (both, only A, only B; "
+    "an unreachable dial fails with ConnectError/TimeoutError); the proviso 'at least one attempt of the new generation may "
+    "complete' = the network never drops the last VIABLE candidate, where fresh hints count from the moment they are sent "
+    "(WV.C11.killOK / otherCandidates, mirrored by World.kill_ok)",
 ]
 RULE = ("guided random schedules of the two-sided dilation world (profiles: plain, lossy, races, reorder, early-messages, "
         "equal-sides) over key/versions/dilate() timing, mailbox arrival order (through the real Boss.D_received_dilate), "
         "connection attempts, handshake progress in seeded chunkings, KCM deliveries, selection turns, loss of either end of any "
         "link, timer-style disconnects; every step compared with the Lean model (both Manager/Connector/DCP states, roles, "
-        "Manager._connection, eventual queues, channels); thorough adds the exhaustive interleavings of one loss + reconnect; "
+        "Manager._connection, eventual queues, channels); every schedule runs in one of three networks (both sides can dial, only A, "
+        "only B) and must re-converge in all of them; thorough adds the exhaustive interleavings of one loss + reconnect (after "
+        "selection on both sides, and while the follower is still CONNECTING) with both-way and leader-only dialling; "
         "non-trivial = a link was selected on at least one side; distinct = distinct canonical traces")
 
 
@@ -166,6 +172,8 @@ class ClientEP:
     def connect(self, factory):
         w = self.world
         port = w.ports.get(self.port)
+        if not w.reach[self.side.name]:
+            return defer.fail(failure.Failure(ConnectTimeoutError()))      # the SYN never gets through
         if port is None or not port.open:
             return defer.fail(failure.Failure(ConnectionRefusedError()))
         me = self.side.name
@@ -241,7 +249,10 @@ def phase_num(phase):
 
 
 class World:
-    def __init__(self, sa, sb):
+    def __init__(self, sa, sb, reach="AB"):
+        # reachability of the network, fixed for the run: the sides whose DIALLED connections get through to the
+        # peer's listener (the other side is behind NAT / a firewall, or the peer does not listen)
+        self.reach = {"A": "A" in reach, "B": "B" in reach}
         self.nport = 0
         self.ports = {}
         self.links = []           # slots: Link or None
@@ -471,16 +482,18 @@ class World:
         for x in "AB":
             s = self.sides[x]
             peer = self.peer(x)
-            if s.mgr is not None:
+            if s.mgr is not None and self.reach[x]:
                 for dc, ep in s.pending_attempts():
                     port = self.ports.get(ep.port)
                     if port is not None and peer.con is not None and port.factory._connector is peer.con:
                         n += 1
-            # fresh hints sent by x and not yet processed by the peer's Manager
-            pts = [pt for k, (ph, pt) in enumerate(s.sent) if k not in peer.arrived]
-            pts += list(peer.boss._rx_dilate_seqnums.values())
-            pts += list(peer.dilator._pending_inbound_dilate_messages)
-            n += sum(1 for pt in pts if self.msg_name(s, pt) == "hints1")
+            # fresh hints SENT by x and not yet processed by the peer's Manager (the peer would dial them): they count
+            # from the moment they are sent — an implementation that discards them loses candidates by itself
+            if self.reach[peer.name]:
+                pts = [pt for k, (ph, pt) in enumerate(s.sent) if k not in peer.arrived]
+                pts += list(peer.boss._rx_dilate_seqnums.values())
+                pts += list(peer.dilator._pending_inbound_dilate_messages)
+                n += sum(1 for pt in pts if self.msg_name(s, pt) == "hints1")
         return n
 
     def kill_ok(self, i):
@@ -832,18 +845,19 @@ def cooperative_completion(w, log):
 
 # ---------------------------------------------------------------------------------------------
 
-def run_ops(sa, sb, ops, choose=None, nsteps=0, final=True):
-    """runs explicit `ops` (list of [op…, seed]) or, if `choose` is given, picks `nsteps` enabled ops"""
+def run_ops(sa, sb, ops, choose=None, nsteps=0, final=True, reach="AB"):
+    """runs explicit `ops` (list of [op…, seed]) or, if `choose` is given, picks `nsteps` enabled ops;
+    `reach`: the sides whose dialled connections get through (at least one: the property's proviso)"""
     del LOGGED[:]
-    w = World(sa, sb)
+    w = World(sa, sb, reach)
     ps = patches(w)
     for p in ps:
         p.start()
     try:
-        lines = [f"init {sa.encode().hex() or '-'} {sb.encode().hex() or '-'}"]
+        lines = [f"init {sa.encode().hex() or '-'} {sb.encode().hex() or '-'} {int(w.reach['A'])} {int(w.reach['B'])}"]
         exp = ["ok | " + w.show()]
         viol = []
-        tags = set()
+        tags = {"reach:" + reach}
         done = []
         observations = []
 
@@ -945,6 +959,22 @@ CORPUS = [
     dict(sa="a", sb="b", ops=[["key", "A", 0], ["vers", "A", 0], ["dilate", "A", 0], ["key", "B", 0], ["vers", "B", 0], ["arrive", "B", 0, 0],
                               ["dilate", "B", 0], ["arrive", "A", 1, 0], ["arrive", "A", 0, 0], ["arrive", "B", 1, 0], ["connect", "A", 0],
                               ["connect", "B", 0], ["hs", 1, 7], ["hs", 0, 9], ["kcmf", 1, 1], ["kcmf", 0, 1], ["turn", "B", 0], ["turn", "B", 0]]),
+    # only the LEADER's dialling gets through (follower behind NAT / leader not listening), and `reconnect` finds the
+    # follower still CONNECTING (the leader selected, its end died before the follower read the KCM): the follower must
+    # answer `reconnecting` THEN its new hints — hints the leader receives while FLUSHING are discarded as stale
+    dict(sa="b", sb="a", reach="A", ops=SETUP + [["lose", "A", 0, 0], ["turn", "A", 0], ["arrive", "B", 1, 0], ["arrive", "B", 2, 0]]),
+    dict(sa="b", sb="a", reach="A", ops=SETUP + [["kcml", 0, 2], ["lose", "A", 0, 0], ["turn", "A", 0], ["arrive", "B", 1, 0], ["arrive", "B", 2, 0],
+                                                 ["arrive", "A", 2, 0], ["arrive", "A", 3, 0], ["turn", "B", 0]]),
+    # the same with the roles mirrored (B leads and is the only one that can dial)
+    dict(sa="a", sb="b", reach="B", ops=[["key", "A", 0], ["key", "B", 0], ["vers", "A", 0], ["vers", "B", 0], ["dilate", "A", 0], ["dilate", "B", 0],
+                                         ["arrive", "A", 0, 0], ["arrive", "B", 0, 0], ["arrive", "B", 1, 0], ["connect", "B", 0], ["hs", 0, 3],
+                                         ["kcmf", 0, 5], ["turn", "B", 0], ["lose", "B", 0, 0], ["turn", "B", 0], ["arrive", "A", 1, 0],
+                                         ["arrive", "A", 2, 0]]),
+    # only the FOLLOWER's dialling gets through; loss after selection, noticed by the leader first
+    dict(sa="a", sb="b", reach="A", ops=[["key", "A", 0], ["key", "B", 0], ["vers", "A", 0], ["vers", "B", 0], ["dilate", "A", 0], ["dilate", "B", 0],
+                                         ["arrive", "A", 0, 0], ["arrive", "B", 0, 0], ["arrive", "A", 1, 0], ["arrive", "B", 1, 0], ["connect", "B", 0],
+                                         ["connect", "A", 0], ["hs", 0, 3], ["kcmf", 0, 5], ["turn", "B", 0], ["lose", "B", 0, 0], ["turn", "B", 0],
+                                         ["arrive", "A", 2, 0]]),
     # equal sides: ValueError on both
     dict(sa="same", sb="same", ops=[["key", "A", 0], ["vers", "A", 0], ["dilate", "A", 0], ["key", "B", 0], ["vers", "B", 0], ["dilate", "B", 0],
                                     ["arrive", "A", 0, 0], ["arrive", "B", 0, 0]]),
@@ -989,11 +1019,15 @@ def guided(seed, n, profile):
     return sa, sb, choose
 
 
+REACH = ["AB", "A", "B"]
+
+
 def run_case(case):
+    reach = case.get("reach", "AB")
     if "ops" in case:
-        return run_ops(case["sa"], case["sb"], case["ops"])
+        return run_ops(case["sa"], case["sb"], case["ops"], reach=reach)
     sa, sb, choose = guided(case["seed"], case["n"], case["profile"])
-    return run_ops(sa, sb, None, choose=choose, nsteps=case["n"])
+    return run_ops(sa, sb, None, choose=choose, nsteps=case["n"], reach=reach)
 
 
 def explicit(case):
@@ -1001,7 +1035,7 @@ def explicit(case):
         return case
     r = run_case(case)
     sa, sb, _ = guided(case["seed"], case["n"], case["profile"])
-    return dict(sa=sa, sb=sb, ops=r.info["ops"])
+    return dict(sa=sa, sb=sb, ops=r.info["ops"], reach=case.get("reach", "AB"))
 
 
 def exhaustive_loss_cases():
@@ -1035,6 +1069,27 @@ def exhaustive_loss_cases():
         for m in merges([0, 0, 0, 0]):
             if m[0][0] == "lose" and m[0][1] == first:
                 out.append(dict(sa="b", sb="a", ops=prefix + m))
+                out.append(dict(sa="b", sb="a", ops=prefix + m, reach="A"))      # only the leader can dial
+    # `reconnect` while the follower is still CONNECTING: the leader selected and sent its KCM (SETUP), the follower has
+    # not read it yet; every merge of the leader's loss, the two mailboxes and the follower's KCM + accept turn
+    seqs2 = [[["lose", "A", 0, 0], ["turn", "A", 0]],
+             [["arrive", "B", 1, 0], ["arrive", "B", 2, 0]],
+             [["arrive", "A", 2, 0], ["arrive", "A", 3, 0]],
+             [["kcml", 0, 2], ["turn", "B", 0]]]
+
+    def merges2(idx):
+        if all(i == len(q) for i, q in zip(idx, seqs2)):
+            yield []
+            return
+        for k, q in enumerate(seqs2):
+            if idx[k] < len(q):
+                nxt = list(idx)
+                nxt[k] += 1
+                for rest in merges2(nxt):
+                    yield [q[idx[k]]] + rest
+    for m in merges2([0, 0, 0, 0]):
+        for reach in ("AB", "A"):
+            out.append(dict(sa="b", sb="a", ops=SETUP + m, reach=reach))
     return out
 
 
@@ -1043,10 +1098,11 @@ def cases(rng, tier):
     if tier == "thorough":
         out += exhaustive_loss_cases()
     for i, p in enumerate(PROFILES):
-        out.append(dict(seed=500 + i, n=60, profile=p))
+        out.append(dict(seed=500 + i, n=60, profile=p, reach=REACH[i % 3]))
     n = 300 if tier == "quick" else 6000
     for _ in range(n):
-        out.append(dict(seed=rng.randrange(10**9), n=rng.choice([25, 50, 90, 150]), profile=rng.choice(PROFILES[:-1] if rng.random() < 0.95 else PROFILES)))
+        out.append(dict(seed=rng.randrange(10**9), n=rng.choice([25, 50, 90, 150]), profile=rng.choice(PROFILES[:-1] if rng.random() < 0.95 else PROFILES),
+                        reach=rng.choice(["AB", "AB", "A", "B"])))
     return out
 
 
@@ -1066,5 +1122,5 @@ def search(rng, seconds, seeds):
     for c in seeds:
         yield c, run_case(c)
     while time.time() - t0 < seconds:
-        c = dict(seed=rng.randrange(10**9), n=rng.choice([50, 90, 150]), profile=rng.choice(PROFILES[:-1]))
+        c = dict(seed=rng.randrange(10**9), n=rng.choice([50, 90, 150]), profile=rng.choice(PROFILES[:-1]), reach=rng.choice(REACH))
         yield c, run_case(c)
